@@ -456,6 +456,10 @@ func modelMatches(s *site, y, im string) bool {
 		}
 		return im == "nz"
 	}
+	if strings.HasPrefix(y, "r:") { // a code point: the interpreter printed the string with %q
+		cp, err := strconv.ParseInt(y[2:], 10, 64)
+		return err == nil && im == "x:"+strconv.Quote(string(rune(cp)))
+	}
 	switch y {
 	case "preflect":
 		return im == "p:other" || im == "missing"
@@ -943,6 +947,16 @@ func main() {
 								}
 								e.line = fmt.Sprintf("C02 ev %s %s %s %s %s %s %s %d", cl.Fn, cl.Cls, cl.Variant, cl.Sub, a, b, sg, dk.Bits)
 							}
+						}
+					}
+					// string(x) of an integer variable: the Lean model of the arm of run.go convert (reflect.Value.Convert)
+					if e.line == "" && o.Group == "conv" && s.Form == "v" && s.kind().isInt() && s.kind2().Class == "string" && !isIfaceCtx(s.Ctx) {
+						sg := "0"
+						if s.kind().Signed {
+							sg = "1"
+						}
+						if v, ok := new(big.Int).SetString(f[0], 10); ok {
+							e.line = fmt.Sprintf("C02 convs %s %d %s", sg, s.kind().Bits, bitsOf(v, s.kind().Bits).String())
 						}
 					}
 					if e.line == "" && attrOK && found {
